@@ -41,6 +41,8 @@ func Replay(path string) error {
 		return MockBuildReplay(path)
 	case "clisim":
 		return CliReplayFile(path)
+	case "clisim-sweep":
+		return SweepReplay(path)
 	case "gensim":
 		return GenReplayFile(path)
 	}
